@@ -152,10 +152,10 @@ func (wtr *XMLWtr) ident(p *node.Path) string {
 
 func (wtr *XMLWtr) getXmlns(p *node.Path) string {
 	ns := ""
-	if meta.OriginalModule(p.Meta).Namespace() == "" {
-		ns = meta.OriginalModule(p.Meta).Ident()
+	if meta.DefiningModule(p.Meta).Namespace() == "" {
+		ns = meta.DefiningModule(p.Meta).Ident()
 	} else {
-		ns = meta.OriginalModule(p.Meta).Namespace()
+		ns = meta.DefiningModule(p.Meta).Namespace()
 	}
 	return ns
 }
@@ -245,7 +245,7 @@ func (wtr *XMLWtr) getStringValue(p *node.Path, v val.Value) (string, error) {
 	switch v.Format() {
 	case val.FmtIdentityRef:
 		stringValue = v.String()
-		leafMod := meta.OriginalModule(p.Meta)
+		leafMod := meta.DefiningModule(p.Meta)
 		bases := identityBases(p.Meta)
 		idty := meta.FindIdentity(bases, stringValue)
 		if idty == nil {
